@@ -66,13 +66,14 @@ def judge(ctx, trace, kd, max_events=12000, cfg=None):
         o += n
     with ThreadPoolExecutor(max_workers=min(lib.NCPU, 16)) as ex:
         vs = list(ex.map(lambda i: lib.tlc_trace(ctx, MODULE_T, cfg, chunks[i][0], timeout=1500), range(len(chunks))))
-    v = {"events": 0, "violations": [], "nviol": 0, "deviations": [], "devcount": {}, "wall_s": 0.0, "chunks": len(chunks)}
+    v = {"events": 0, "violations": [], "nviol": 0, "deviations": [], "dev_triples": [], "devcount": {}, "wall_s": 0.0, "chunks": len(chunks)}
     for i, x in enumerate(vs):
         v["events"] += x["events"]
         v["nviol"] += x["nviol"]
         v["violations"] += [ln + offs[i] for ln in x["violations"]]
         for first, fid, n in x["deviations"]:
             v["deviations"].append([first + offs[i], fid])
+            v["dev_triples"].append((first + offs[i], fid, n))
             v["devcount"][fid] = v["devcount"].get(fid, 0) + n
         v["wall_s"] = max(v["wall_s"], x["wall_s"])
     if v["events"] != o:
@@ -177,8 +178,13 @@ def run_programs(ctx, progs, trace, shards):
 
 
 # --------------------------------------------------------------------------- TLC stages
-def mc_constants(family, depth):
-    return {"Family": '"%s"' % family, "D": depth, "Wide": "TRUE" if WIDE else "FALSE"}
+ENUMERATED = ("ngdp", "tl", "bbp", "zcp", "sized", "zce", "zcr", "zcc", "str", "bg")
+
+
+def mc_constants(fams, depth):
+    """depth: family -> 3 | 4 | 5"""
+    return {"Fams": lib.tla_set(fams), "F4": lib.tla_set([f for f in fams if depth.get(f) == 4]),
+            "F5": lib.tla_set([f for f in fams if depth.get(f) == 5]), "Wide": "TRUE" if WIDE else "FALSE"}
 
 
 def add_states(ctx, r):
@@ -187,68 +193,138 @@ def add_states(ctx, r):
         ctx.cov["transitions"] += r["generated"]
 
 
-def gen(ctx, label, family, depth, init, next_, invariants):
-    cfg = ctx.path(f"gen_{label}.cfg")
-    lib.write_cfg(cfg, mc_constants(family, depth), init, next_, invariants=invariants, constraints=["Constr"])
-    progs = ctx.path(f"prog_{label}.ndjson")
-    r = lib.tlc(ctx, MODULE_MC, cfg, tagged_out={"PROGRAM": progs}, timeout=1500, workers=min(lib.NCPU, 4))
+def family_of(prog_line):
+    """family of a generated program line (the two zc families differ in their first operation)"""
+    p = json.loads(prog_line)
+    if p["kind"] == "zc":
+        return "zce" if p["ops"][0]["op"] == "mk" else "zcr"
+    return p["kind"]
+
+
+def enumerate_all(ctx, depth):
+    """One TLC run enumerates every family's programs, the streaming tables and the retention-limit scripts; one sharded driver
+    run executes them."""
+    fams = list(ENUMERATED) + ["stream", "limits"]
+    cfg = ctx.path("gen_all.cfg")
+    lib.write_cfg(cfg, mc_constants(fams, depth), "AllInit", "GenNext", invariants=["Emit", "EmitTab", "EmitLim"], constraints=["Constr"])
+    progs = ctx.path("prog_all.ndjson")
+    r = lib.tlc(ctx, MODULE_MC, cfg, tagged_out={"PROGRAM": progs}, timeout=1500, workers=min(lib.NCPU, 8))
     add_states(ctx, r)
     # TLC's workers print in a nondeterministic order: sort, so that traces (and the self-test samples) are reproducible
     ls = sorted(lib.read_lines(progs))
     open(progs, "w").write("\n".join(ls) + ("\n" if ls else ""))
-    return progs, r
-
-
-def gen_run_judge(ctx, label, family, depth, kd, init="GenInit", next_="GenNext", invariants=("Emit",), shards=8):
-    progs, r = gen(ctx, label, family, depth, init, next_, list(invariants))
     n = r["counts"]["PROGRAM"]
-    ctx.stage("mc-gen", family=label, depth=depth, distinct_states=r["distinct"], programs=n, wall_s=r["wall_s"])
-    trace = ctx.path(f"trace_{label}.ndjson")
-    d = run_programs(ctx, progs, trace, shards)
-    ctx.stage("run", family=label, programs=d.get("programs"), events=d.get("events"), hangs=d.get("hangs"), wall_s=d["wall_s"])
+    per = {}
+    for l in ls:
+        f = family_of(l)
+        per[f] = per.get(f, 0) + 1
+    with LOCK:
+        ctx.stage("mc-gen", depth={f: depth.get(f, 3) for f in ENUMERATED}, distinct_states=r["distinct"], programs=n,
+                  programs_by_kind=per, wall_s=r["wall_s"])
+    missing = [f for f in ENUMERATED + ("stream",) if not per.get(f)]
+    if missing:
+        raise lib.ToolError(f"no program was generated for {missing}")
+    ctx.cov["programs_by_family"] = per      # (the retention-limit scripts are counted with the pool they fill)
+    trace = ctx.path("trace_all.ndjson")
+    d = run_programs(ctx, progs, trace, shards=16)
+    with LOCK:
+        ctx.stage("run", source="enumeration", programs=d.get("programs"), events=d.get("events"), hangs=d.get("hangs"), wall_s=d["wall_s"])
     if d.get("programs") != n:
         raise lib.ToolError(f"driver executed {d.get('programs')} of {n} programs")
     _, dn = lib.count_distinct(progs)
     os.remove(progs)
-    ls = lib.read_lines(trace)
-    s, e = lib.run_of_line(ls, max(1, len(ls) * 2 // 3), is_boundary)
-    with LOCK:
-        if len(ctx.cov["samples"]) < 6:
-            ctx.cov["samples"].append({"source": f"MC_Pools {label} D={depth}", "trace": [json.loads(x) for x in ls[s:e]][:10]})
-    del ls
-    judge_and_classify(ctx, trace, f"MC_Pools {label} D={depth}", kd)
     return n, dn, trace
 
 
-def design_level(ctx, kd):
+def samples_by_kind(ctx, trace, want=1500):
+    """The first runs of every kind of a trace (about `want` events each) as lists of 0-based line numbers: self-test samples."""
+    lines = lib.read_lines(trace)
+    out, i = {}, 0
+    while i < len(lines):
+        j = i + 1
+        while j < len(lines) and not is_boundary(lines[j]):
+            j += 1
+        if lib.is_new(lines[i]):
+            kind = json.loads(lines[i])["kind"]
+            if kind == "zc" and j > i + 1:          # entries / slices (first operation mk) and readers apart
+                kind = "zce" if '"op":"mk"' in lines[i + 1] else "zcr"
+            cur = out.setdefault(kind, [])
+            if len(cur) < want:
+                cur.extend(range(i, j))
+        i = j
+    for k in ("ngdp", "zcc", "sized", "zce", "bg"):
+        ix = out.get(k, [])
+        if ix and len(ctx.cov["samples"]) < 6:
+            s, e = lib.run_of_line(lines, ix[len(ix) * 2 // 3] + 1, is_boundary)
+            ctx.cov["samples"].append({"source": f"MC_Pools {k}", "trace": [json.loads(z) for z in lines[s:e]][:10]})
+    return lines, out
+
+
+def design_level(ctx):
     """TLC must refute each stated property on the code-shaped variant; the counterexamples (WITNESS programs) are replayed
     on the real code, where the listed finding must explain them (or, once fixed, nothing deviates)."""
-    plan = [("FX06a", "zcp", 3, "WCapacity"), ("FX06b", "sized", 3, "WReuse"), ("FX06c", "zce", 3, "WRefCount")]
-    wit, model = [], {}
-    for fid, family, depth, inv in plan:
-        cfg = ctx.path("design.cfg")
-        lib.write_cfg(cfg, mc_constants(family, depth), "GenInit", "GenNext", invariants=[inv], constraints=["Constr"])
+    plan = [("FX06a", "zcp", "WCapacity"), ("FX06b", "sized", "WReuse"), ("FX06c", "zce", "WRefCount")]
+
+    def one(item):
+        fid, family, inv = item
+        cfg = ctx.path(f"design_{family}.cfg")
+        lib.write_cfg(cfg, mc_constants([family], {}), "GenInit", "GenNext", invariants=[inv], constraints=["Constr"])
         r = lib.tlc(ctx, MODULE_MC, cfg, timeout=600, expect_violation=True, workers=1)
         add_states(ctx, r)
         ws = r["tagged"].get("WITNESS", [])
-        model[fid] = {"invariant": ws[0]["inv"] if ws else inv, "refuted": inv in r["invariant_violated"], "depth": r.get("depth"),
-                      "witness_ops": ws[0]["program"]["ops"] if ws else None}
-        if not model[fid]["refuted"] or not ws:
+        m = {"invariant": ws[0]["inv"] if ws else inv, "refuted": inv in r["invariant_violated"], "depth": r.get("depth"),
+             "witness_ops": ws[0]["program"]["ops"] if ws else None}
+        if not m["refuted"] or not ws:
             raise lib.ToolError(f"the code-shaped model does not refute {inv}")
-        wit.append(ws[0]["program"])
+        return fid, m, ws[0]["program"]
+
+    with ThreadPoolExecutor(max_workers=3) as ex:
+        res = list(ex.map(one, plan))
+    model = {fid: m for fid, m, _ in res}
+    wit = [w for _, _, w in res]
     ctx.cov.setdefault("design_level", {})["code_shaped_refutations"] = model
     p = ctx.path("prog_witness.ndjson")
     open(p, "w").write("".join(json.dumps(w) + "\n" for w in wit))
     trace = ctx.path("trace_witness.ndjson")
     lib.run_driver(DRV, ["--programs", p, "--out", trace])
-    v = judge_and_classify(ctx, trace, "design-level witnesses", kd)
-    ctx.cov["design_level"]["witnesses_replayed"] = {"programs": len(wit), "deviations_on_real_code": v["devcount"], "violations": v["nviol"]}
-    gone = sorted(f for f in model if f in kd and f not in v["devcount"])
-    if gone:
-        ctx.cov["known_findings_not_reproduced_by_witness"] = gone
-        lib.log(f"[{PROP}] note: the witness of {gone} no longer deviates on the real code - is the finding fixed?")
-    ctx.stage("mc-design", refuted={k: m["refuted"] for k, m in model.items()}, witnesses=len(wit))
-    return len(wit)
+    with LOCK:
+        ctx.stage("mc-design", refuted={k: m["refuted"] for k, m in model.items()}, witnesses=len(wit))
+    return len(wit), trace, model
+
+
+def judge_sections(ctx, sections, kd, cfg=None, max_events=30000):
+    """Judge several traces in ONE chunked monitor pass (TLC start-up dominates on a busy machine).
+    sections: [(name, path)].  Returns {name: {"violations": [1-based local lines], "nviol", "devcount": {fid: n}, "events"}}.
+    A deviation count is attributed to the section of the finding's first line within a chunk (sections are far larger than chunks
+    only for the enumeration; the split is informational)."""
+    big = ctx.path("trace_sections_%d.ndjson" % len(os.listdir(ctx.work)))
+    offs, o = [], 0
+    with open(big, "w") as out:
+        for name, path in sections:
+            n = 0
+            with open(path) as f:
+                for line in f:
+                    out.write(line)
+                    n += 1
+            offs.append((name, o, o + n))
+            o += n
+    v = judge(ctx, big, kd, max_events=max_events, cfg=cfg)
+    os.remove(big)
+    res = {name: {"violations": [], "nviol": 0, "devcount": {}, "events": e - s} for name, s, e in offs}
+
+    def sec(line):
+        return next(name for name, s, e in offs if s < line <= e)
+
+    for ln in v["violations"]:
+        name = sec(ln)
+        res[name]["violations"].append(ln - next(s for n2, s, e in offs if n2 == name))
+        res[name]["nviol"] += 1
+    for first, fid, n in v["dev_triples"]:
+        d = res[sec(first)]["devcount"]
+        d[fid] = d.get(fid, 0) + n
+    res["_total"] = {"nviol": v["nviol"], "devcount": v["devcount"], "events": v["events"], "wall_s": v["wall_s"], "chunks": v["chunks"],
+                     "listed": len(v["violations"])}
+    return res
 
 
 # --------------------------------------------------------------------------- concurrent runs
@@ -301,19 +377,36 @@ def judge_lin(ctx, trace, kd, chunk=12):
     return len(lines), strict, relaxed, states, trans
 
 
-def conc_stage(ctx, kd):
+def conc_run(ctx):
+    """Execute the concurrent programs (one driver process at a time: they are timing sensitive)."""
     lin, ham = conc_programs(ctx.seed, ctx.quick)
     pl, ph = ctx.path("prog_lin.ndjson"), ctx.path("prog_ham.ndjson")
     open(pl, "w").write("".join(json.dumps(x) + "\n" for x in lin))
     open(ph, "w").write("".join(json.dumps(x) + "\n" for x in ham))
     tl_, th = ctx.path("trace_lin.ndjson"), ctx.path("trace_ham.ndjson")
-    # concurrent runs are timing sensitive: one driver process at a time
     d1 = lib.run_driver(DRV, ["--programs", pl, "--out", tl_])
     d2 = lib.run_driver(DRV, ["--programs", ph, "--out", th])
-    ctx.stage("run", family="conc", lin_runs=d1.get("programs"), quiescent_runs=d2.get("programs"), hangs=d1.get("hangs", 0) + d2.get("hangs", 0))
+    with LOCK:
+        ctx.stage("run", source="conc", lin_runs=d1.get("programs"), quiescent_runs=d2.get("programs"), hangs=d1.get("hangs", 0) + d2.get("hangs", 0))
     if d1.get("programs") != len(lin) or d2.get("programs") != len(ham):
         raise lib.ToolError("driver did not execute every concurrent program")
-    n, strict, relaxed, states, trans = judge_lin(ctx, tl_, kd)
+    return len(lin) + len(ham), tl_, th
+
+
+def lin_stage(ctx, tl_, kd):
+    """Linearizability search over the crun lines; the last line is a self-test: a copy of the first run with its quiescent
+    snapshot corrupted - the search must reject it (and only it)."""
+    lines = lib.read_lines(tl_)
+    run = json.loads(lines[0])
+    fin = [o for o in run["ops"] if o["op"] == "snap" and o["t"] == 0][-1]
+    fin["st"][0] += 1
+    p = ctx.path("trace_lin_st.ndjson")
+    open(p, "w").write("\n".join(lines + [json.dumps(run, separators=(",", ":"))]) + "\n")
+    n, strict, relaxed, states, trans = judge_lin(ctx, p, kd, chunk=25)
+    n -= 1
+    st_ok = n + 1 not in strict and n + 1 not in relaxed and (1 in strict or 1 in relaxed)
+    strict.discard(n + 1)
+    relaxed.pop(n + 1, None)
     bad = [i for i in range(1, n + 1) if i not in strict and i not in relaxed]
     with LOCK:
         ctx.cov["monitor_states"] = ctx.cov.get("monitor_states", 0) + states
@@ -321,19 +414,17 @@ def conc_stage(ctx, kd):
             for fid in relaxed[i]:
                 lib.note_known(ctx, fid)
                 ctx.cov["deviations_observed"][fid] = ctx.cov["deviations_observed"].get(fid, 0) + 1
-        lines = lib.read_lines(tl_) if bad else []
         for i in bad[:4]:
-            run = json.loads(lines[i - 1])
+            r = json.loads(lines[i - 1])
             lib.report_violation(ctx, f"conc lin seed={ctx.seed}: run {i} is not linearizable w.r.t. the pool specification",
-                                 {"property": PROP, "source": "conc-lin", "program": {"kind": "conc", "cfg": run["cfg"]}, "history": run["ops"],
+                                 {"property": PROP, "source": "conc-lin", "program": {"kind": "conc", "cfg": r["cfg"]}, "history": r["ops"],
                                   "explanation": "TLC found no order of the operation parts, consistent with real-time order, in which the "
                                                  "sequential pool specification (Pools.tla PART P, property L) produces these results"})
         ctx.stage("judge", source="conc-lin", runs=n, linearizable=len(strict), only_with_known_deviation=len(set(relaxed) - strict),
                   not_linearizable=len(bad), monitor_states=states)
         if len(ctx.cov["samples"]) < 6:
-            ctx.cov["samples"].append({"source": "conc lin", "trace": [json.loads(lib.read_lines(tl_)[0])]})
-    judge_and_classify(ctx, th, f"conc quiescent seed={ctx.seed}", kd)
-    return len(lin) + len(ham), tl_, (strict, relaxed)
+            ctx.cov["samples"].append({"source": "conc lin", "trace": [json.loads(lines[0])]})
+    return st_ok
 
 
 # --------------------------------------------------------------------------- seeded random programs
@@ -566,44 +657,25 @@ def random_programs(seed, quick):
 
 
 # --------------------------------------------------------------------------- self-tests
-def head(path, n):
-    ls = lib.read_lines(path)[:n]
-    if len(ls) == n:          # cut at a run boundary
-        while ls and not lib.is_new(ls[-1]):
-            ls.pop()
-        ls.pop()
-    return ls
+def selftest_traces(ctx, lines, ix):
+    """Binding self-test material from the enumeration trace: a sample (first runs of four kinds) with five corrupted fields,
+    and the same sample with one event dropped.  Returns (edited path, dropped path, sample line numbers, expectations)."""
+    sample = [i for k in ("ngdp", "zce", "zcc", "stream") for i in ix[k]]
+    ls = [lines[i] for i in sample]
 
-
-def selftest(ctx, traces, kd, lin):
-    """Binding self-test: corrupt one logged field / drop one event -> the monitor must flag exactly that."""
-    cfg = t_cfg(ctx, kd)
-    parts = [head(traces["ngdp"], 2500), head(traces["zce"], 2500), head(traces["zcc"], 2500), lib.read_lines(traces["stream"])]
-    ls = [l for p in parts for l in p]
-    off = [0]
-    for p in parts:
-        off.append(off[-1] + len(p))
-
-    def verdict(item):
-        name, lines = item
-        p = ctx.path(f"selftest_{name}.ndjson")
-        open(p, "w").write("\n".join(lines) + "\n")
-        return lib.tlc_trace(ctx, MODULE_T, cfg, p)
-
-    base = verdict(("base", ls))
-
-    def pick(part, start, pred):
-        return next(i for i in range(off[part] + start, off[part + 1] - 1) if (i + 1) not in base["violations"] and pred(i, ls[i]))
+    def pick(kind, start, pred):
+        lo = sample.index(ix[kind][0])
+        return next(j for j in range(lo + start, lo + len(ix[kind]) - 1) if pred(j, ls[j]))
 
     # (a) an allocation answers with a capacity below the request; (b) a pool counter is off by one
-    ia = pick(0, 40, lambda i, l: '"op":"alloc"' in l and '"n":100,' in l)
-    ib = pick(0, 200, lambda i, l: '"op":"free"' in l)
+    ia = pick("ngdp", 40, lambda i, l: '"op":"alloc"' in l and '"n":100,' in l)
+    ib = pick("ngdp", 200, lambda i, l: '"op":"free"' in l)
     # (c) a slice denotes other bytes than it claims; (d) a cache hit returns other bytes; (e) a chunk of the stream is altered
-    ic = pick(1, 40, lambda i, l: '"op":"slice"' in l and '"some":true' in l and '"n":1,' in l)
-    idd = pick(2, 40, lambda i, l: '"op":"get"' in l and '"hit":true' in l)
-    ie = pick(3, 2, lambda i, l: '"op":"proc"' in l and '"chunks":[[' in l)
+    ic = pick("zce", 40, lambda i, l: '"op":"slice"' in l and '"some":true' in l and '"n":1,' in l)
+    idd = pick("zcc", 40, lambda i, l: '"op":"get"' in l and '"hit":true' in l)
+    ie = pick("stream", 2, lambda i, l: '"op":"proc"' in l and '"chunks":[[' in l)
     # (f) an event that is not a run boundary is dropped
-    ifd = pick(0, 300, lambda i, l: not lib.is_new(l) and not lib.is_new(ls[i + 1]))
+    ifd = pick("ngdp", 300, lambda i, l: not lib.is_new(l) and not lib.is_new(ls[i + 1]))
     edited = list(ls)
 
     def ed_b(e):
@@ -622,51 +694,30 @@ def selftest(ctx, traces, kd, lin):
         edited[i] = json.dumps(e, separators=(",", ":"))
     dropped = list(ls)
     del dropped[ifd]
-    with ThreadPoolExecutor(max_workers=2) as ex:
-        ve, vb = list(ex.map(verdict, [("edited", edited), ("dropped", dropped)]))
-    new = set(ve["violations"]) - set(base["violations"])
-    res = {"corrupt_capacity_flagged": (ia + 1) in new, "corrupt_pool_counter_flagged": (ib + 1) in new,
-           "corrupt_slice_bytes_flagged": (ic + 1) in new, "corrupt_cache_hit_flagged": (idd + 1) in new,
-           "corrupt_chunk_flagged": (ie + 1) in new, "only_the_corrupted_events_flagged": ve["nviol"] == base["nviol"] + 5,
-           "drop_one_event_flagged": (ifd + 1) in vb["violations"] and vb["nviol"] > base["nviol"]}
-    # (g) linearizability search: corrupt the quiescent snapshot of a run the search accepts strictly
-    tl_, (strict, relaxed) = lin
-    lines = lib.read_lines(tl_)[:12]
-    cand = [i for i in sorted(strict) if i <= len(lines)]
-    if cand:
-        i = cand[0]
-        run = json.loads(lines[i - 1])
-        fin = [o for o in run["ops"] if o["op"] == "snap" and o["t"] == 0][-1]
-        fin["st"][0] += 1
-        lines[i - 1] = json.dumps(run, separators=(",", ":"))
-        p = ctx.path("selftest_lin.ndjson")
-        open(p, "w").write("\n".join(lines) + "\n")
-        _, s2, r2, _, _ = judge_lin(ctx, p, kd)
-        res["corrupt_quiescent_snapshot_not_linearizable"] = i not in s2 and i not in r2
-        res["other_lin_runs_unchanged"] = {x for x in strict if x <= len(lines)} - {i} == s2
-    ctx.cov["binding_selftest"] = res
-    if not all(res.values()):
-        raise lib.ToolError(f"binding self-test failed: {res}")
+    pe, pd = ctx.path("selftest_edited.ndjson"), ctx.path("selftest_dropped.ndjson")
+    open(pe, "w").write("\n".join(edited) + "\n")
+    open(pd, "w").write("\n".join(dropped) + "\n")
+    names = ["corrupt_capacity_flagged", "corrupt_pool_counter_flagged", "corrupt_slice_bytes_flagged", "corrupt_cache_hit_flagged",
+             "corrupt_chunk_flagged"]
+    return pe, pd, sample, dict(zip(names, (ia, ib, ic, idd, ie))), ifd
 
 
-def selftest_signatures(ctx, traces, kd):
-    """The deviation signatures are not vacuous: with KnownDeviations = {} the monitor rejects exactly the events they explained."""
-    if not kd:
-        ctx.cov["binding_selftest"]["deviations_rejected_when_not_listed"] = "no finding is listed as known"
-        return
-    cfg_kd, cfg_no = t_cfg(ctx, kd), t_cfg(ctx, [], "t_pools_nodev.cfg")
-    ls = [l for n in ("zcp", "sized", "zce", "zcc", "stream", "bg") for l in head(traces[n], 1500)]
+def selftest_verdict(ctx, res, sample, picks, ifd):
+    """res: judge_sections result with sections enum / st_edited / st_dropped."""
+    base = {k + 1 for k, i in enumerate(sample) if (i + 1) in set(res["enum"]["violations"])}      # sample-local lines flagged as recorded
+    ve, vd = set(res["st_edited"]["violations"]), set(res["st_dropped"]["violations"])
+    out = {name: (i + 1) in ve - base for name, i in picks.items()}
+    out["only_the_corrupted_events_flagged"] = ve - base == {i + 1 for i in picks.values()}
+    out["drop_one_event_flagged"] = (ifd + 1) in vd
+    return out
+
+
+def signature_trace(ctx, lines, ix):
+    """A sample with events of every sequentially observable finding, to be judged with and without the deviations listed."""
+    sample = [i for k in ("zcp", "sized", "zce", "zcc", "stream", "bg") for i in ix[k]]
     p = ctx.path("selftest_sig.ndjson")
-    open(p, "w").write("\n".join(ls) + "\n")
-    with ThreadPoolExecutor(max_workers=2) as ex:
-        w_kd, w_no = list(ex.map(lambda c: lib.tlc_trace(ctx, MODULE_T, c, p), [cfg_kd, cfg_no]))
-    explained = sum(d[2] for d in w_kd["deviations"])
-    # an event explained by two findings at once is ONE violation without them
-    ok = w_kd["nviol"] == 0 and 0 < w_no["nviol"] <= explained
-    ctx.cov["binding_selftest"]["deviations_rejected_when_not_listed"] = ok
-    ctx.cov["binding_selftest"]["deviation_events_in_sample"] = w_no["nviol"]
-    if not ok:
-        raise lib.ToolError(f"signature self-test failed: explained={explained} rejected={w_no['nviol']} (listed: {w_kd['nviol']})")
+    open(p, "w").write("\n".join(lines[i] for i in sample) + "\n")
+    return p
 
 
 def replay(ctx, kd):
@@ -675,26 +726,31 @@ def replay(ctx, kd):
     p = ctx.path("replay_prog.ndjson")
     open(p, "w").write(json.dumps(prog) + "\n")
     trace = ctx.path("replay_trace.ndjson")
-    bad = 0
-    attempts = 1 if prog.get("kind") != "conc" else 50      # a concurrent run is one sample of the schedules
-    for _ in range(attempts):
+    conc = prog.get("kind") == "conc"
+    attempts = 50 if conc else 1      # a concurrent run is one sample of the schedules
+    devs = {}
+    for k in range(attempts):
         lib.run_driver(DRV, ["--programs", p, "--out", trace])
-        if prog.get("kind") == "conc" and prog["cfg"].get("mode") == "lin":
+        if conc and prog["cfg"].get("mode") == "lin":
             n, strict, relaxed, _, _ = judge_lin(ctx, trace, kd)
-            bad = n - len(strict | set(relaxed))
-            if bad:
-                print(open(trace).read()[:4000])
-                print(f"VIOLATION property={PROP} replay={ctx.replay} (run not linearizable)")
+            for i in set(relaxed) - strict:
+                for fid in relaxed[i]:
+                    devs[fid] = devs.get(fid, 0) + 1
+            if n - len(strict | set(relaxed)):
+                print(open(trace).read()[:6000])
+                print(f"VIOLATION property={PROP} replay={ctx.replay} (run not linearizable, attempt {k + 1})")
                 return 1
             continue
         v = judge(ctx, trace, kd)
-        if v["violations"] or attempts == 1:
+        for fid, c in v["devcount"].items():
+            devs[fid] = devs.get(fid, 0) + c
+        if v["violations"] or not conc:
             print(open(trace).read()[:20000])
-            print(json.dumps({k: v[k] for k in ("events", "violations", "nviol", "devcount")}))
+            print(json.dumps({k2: v[k2] for k2 in ("events", "violations", "nviol", "devcount")}))
             for ln in v["violations"]:
                 print(f"VIOLATION property={PROP} replay={ctx.replay} (event {ln - 1} of the replayed run)")
             return 1 if v["violations"] else 0
-    print(f"no violation in {attempts} attempts")
+    print(json.dumps({"attempts": attempts, "violations": 0, "attempts_explained_by_known_finding": devs}))
     return 0
 
 
@@ -707,43 +763,72 @@ def run(ctx):
     quick = ctx.quick
     global WIDE
     WIDE = not quick
-    total = distinct = 0
-    total += design_level(ctx, kd)
-    dq = {"ngdp": 4, "tl": 4, "bbp": 3, "zcp": 4, "sized": 3, "zce": 3, "zcr": 3, "zcc": 3, "str": 3, "bg": 3}
-    dt = {"ngdp": 4, "tl": 4, "bbp": 4, "zcp": 4, "sized": 4, "zce": 4, "zcr": 3, "zcc": 3, "str": 4, "bg": 4}
-    depth = dq if quick else dt
-    plan = [(f, dict(family=f, depth=depth[f])) for f in ("ngdp", "tl", "bbp", "zcp", "sized", "zce", "zcr", "zcc", "str", "bg")]
-    plan += [("stream", dict(family="stream", depth=0, init="TabInit", next_="TabNext", invariants=("EmitTab",))),
-             ("limits", dict(family="limits", depth=0, init="LimInit", next_="LimNext", invariants=("EmitLim",)))]
-    traces = {}
-    # the families are independent pipelines: run them side by side (each is itself sharded / chunked)
-    with ThreadPoolExecutor(max_workers=3 if lib.NCPU <= 4 else 4) as ex:
-        futs = {label: ex.submit(gen_run_judge, ctx, label, kd=kd, **kw) for label, kw in plan}
-        for label, f in futs.items():
-            n, dn, trace = f.result()
-            total += n
-            distinct += dn
-            traces[label] = trace
-    n, tl_, lin = conc_stage(ctx, kd)
-    total += n
-    distinct += n
-    selftest(ctx, traces, kd, (tl_, lin))
-    selftest_signatures(ctx, traces, kd)
-    for t in traces.values():
-        os.remove(t)
-    # seeded random programs: longer histories, more sizes / capacities / byte strings / content types
+    depth = ({"ngdp": 4, "tl": 3, "bbp": 3, "zcp": 3} if quick else
+             {"ngdp": 4, "tl": 4, "bbp": 4, "zcp": 4, "sized": 4, "zce": 4, "str": 4, "bg": 4})
+    # ---- produce: concurrent runs first (alone on the machine as far as this check goes), then TLC + driver side by side
+    nconc, tl_, th = conc_run(ctx)
     progs = random_programs(ctx.seed, quick)
-    p = ctx.path("prog_random.ndjson")
-    open(p, "w").write("".join(json.dumps(x) + "\n" for x in progs))
-    trace = ctx.path("trace_random.ndjson")
-    d = run_programs(ctx, p, trace, shards=16)
-    ctx.stage("run", source="random", programs=d.get("programs"), events=d.get("events"), hangs=d.get("hangs"), wall_s=d["wall_s"])
-    if d.get("programs") != len(progs):
-        raise lib.ToolError(f"driver executed {d.get('programs')} of {len(progs)} random programs")
-    _, dn = lib.count_distinct(p)
-    judge_and_classify(ctx, trace, f"random seed={ctx.seed}", kd)
-    total += len(progs)
-    distinct += dn
+
+    def random_run():
+        p = ctx.path("prog_random.ndjson")
+        open(p, "w").write("".join(json.dumps(x) + "\n" for x in progs))
+        trace = ctx.path("trace_random.ndjson")
+        d = run_programs(ctx, p, trace, shards=16)
+        with LOCK:
+            ctx.stage("run", source="random", programs=d.get("programs"), events=d.get("events"), hangs=d.get("hangs"), wall_s=d["wall_s"])
+        if d.get("programs") != len(progs):
+            raise lib.ToolError(f"driver executed {d.get('programs')} of {len(progs)} random programs")
+        return lib.count_distinct(p)[1], trace
+
+    with ThreadPoolExecutor(max_workers=4) as ex:
+        f_design = ex.submit(design_level, ctx)
+        f_enum = ex.submit(enumerate_all, ctx, depth)
+        f_rand = ex.submit(random_run)
+        f_lin = ex.submit(lin_stage, ctx, tl_, kd)
+        nwit, t_wit, model = f_design.result()
+        nenum, denum, t_enum = f_enum.result()
+        drand, t_rand = f_rand.result()
+        # ---- judge: everything sequential in one chunked monitor pass (+ the self-test copies), a second pass without deviations
+        lines, ix = samples_by_kind(ctx, t_enum)
+        pe, pd, sample, picks, ifd = selftest_traces(ctx, lines, ix)
+        psig = signature_trace(ctx, lines, ix)
+        del lines
+        sections = [("witness", t_wit), ("enum", t_enum), ("conc", th), ("random", t_rand), ("st_edited", pe), ("st_dropped", pd), ("st_sig", psig)]
+        for _, p in sections[:4]:
+            histogram(ctx, p)
+        f_nodev = ex.submit(judge, ctx, psig, [], 30000, t_cfg(ctx, [], "t_pools_nodev.cfg")) if kd else None
+        res = judge_sections(ctx, sections, kd)
+        lin_selftest = f_lin.result()
+        nodev = f_nodev.result() if f_nodev else None
+    labels = {"witness": "design-level witnesses", "enum": "MC_Pools enumeration", "conc": f"conc quiescent seed={ctx.seed}", "random": f"random seed={ctx.seed}"}
+    for name, label in labels.items():
+        r = res[name]
+        ctx.stage("judge", source=label, events=r["events"], violations=r["nviol"], deviations=r["devcount"])
+        for fid, n in r["devcount"].items():
+            lib.note_known(ctx, fid, n)
+            ctx.cov["deviations_observed"][fid] = ctx.cov["deviations_observed"].get(fid, 0) + n
+        classify(ctx, r["violations"], dict(sections)[name], label)
+    ctx.stage("judge-pass", events=res["_total"]["events"], chunks=res["_total"]["chunks"], wall_s=res["_total"]["wall_s"])
+    ctx.cov["design_level"]["witnesses_replayed"] = {"programs": nwit, "deviations_on_real_code": res["witness"]["devcount"], "violations": res["witness"]["nviol"]}
+    gone = sorted(f for f in model if f in kd and f not in res["witness"]["devcount"])
+    if gone:
+        ctx.cov["known_findings_not_reproduced_by_witness"] = gone
+        lib.log(f"[{PROP}] note: the witness of {gone} no longer deviates on the real code - is the finding fixed?")
+    # ---- self-tests (they assume a conforming tree: skipped verdict if the tree itself violates)
+    st = selftest_verdict(ctx, res, sample, picks, ifd)
+    st["corrupt_quiescent_snapshot_not_linearizable"] = lin_selftest
+    if kd:
+        explained = sum(res["st_sig"]["devcount"].values())
+        # an event explained by two findings at once is ONE violation without them
+        st["deviations_rejected_when_not_listed"] = res["st_sig"]["nviol"] == 0 and 0 < nodev["nviol"] <= explained
+        st["deviation_events_in_sample"] = nodev["nviol"]
+    else:
+        st["deviations_rejected_when_not_listed"] = "no finding is listed as known"
+    ctx.cov["binding_selftest"] = st
+    if not all(st.values()):
+        raise lib.ToolError(f"binding self-test failed: {st}")
+    total = nwit + nenum + nconc + len(progs)
+    distinct = nwit + denum + nconc + drand
     ctx.cov["actions_never_taken"] = sorted(k for k, n in ctx.cov.get("events_by_kind", {}).items() if n == 0)
     if ctx.cov["actions_never_taken"]:
         raise lib.ToolError(f"operations / answers never exercised on the real code: {ctx.cov['actions_never_taken']}")
